@@ -100,13 +100,14 @@ from ..ast.fpyast import (
     Var,
     Zip,
 )
-from ..ast.visitor import DefaultTransformVisitor
+from ..ast.visitor import DefaultTransformVisitor, DefaultVisitor
 from ..utils import Gensym, Id
 from .iter_elim import (
     Ctx,
     Plan,
     Slot,
     SubstNames,
+    binding_names,
     clone,
     comp_binding_is_pairs,
     destructure_subst,
@@ -240,6 +241,12 @@ class _EnumerateElimInstance(DefaultTransformVisitor):
         new_targets: list[Id | TupleBinding] = []
         new_iterables: list[Expr] = []
         subst: dict[NamedId, Expr] = {}
+        # An index name keeps standing for the counter in what replaces the
+        # element (`x` becomes `xs[i]`); where the comprehension binds that
+        # name a second time, the replacement would read the other binding.
+        binds = _CompBindings()
+        binds._visit_expr(e, None)
+        self._rebound = {n for n in binds.names if binds.names.count(n) > 1}
 
         for target, iterable in zip(e.targets, e.iterables):
             new_iter = self._visit_expr(iterable, ctx)
@@ -252,6 +259,9 @@ class _EnumerateElimInstance(DefaultTransformVisitor):
             if rewritten is None:
                 new_targets.append(self._visit_binding(target, ctx))
                 new_iterables.append(new_iter)
+                # a stage that binds a substituted name again shadows it
+                for name in binding_names(target):
+                    subst.pop(name, None)
             else:
                 new_target, new_iterable = rewritten
                 new_targets.append(new_target)
@@ -287,6 +297,10 @@ class _EnumerateElimInstance(DefaultTransformVisitor):
             return None
 
         idx = self._index_name(idx_slot)
+        if isinstance(idx_slot, NamedId) and idx_slot in getattr(self, '_rebound', ()):
+            # bound again further in: count with a name of our own
+            idx = self.gensym.fresh('_i')
+            subst[idx_slot] = Var(idx, None)
         if plan.tupled:
             # A whole-element slot is a name or a discard, so no `fst`/`snd`
             # chain is involved and `comp_binding_is_pairs` has nothing to say.
@@ -304,6 +318,19 @@ class _EnumerateElimInstance(DefaultTransformVisitor):
             for slot, arg in zip(plan.slots, plan.args):
                 destructure_subst(slot, index_access(arg, idx), subst)
         return idx, Range1(None, Len(None, clone(plan.args[0]), None), None)
+
+
+class _CompBindings(DefaultVisitor):
+    """The names the targets of a comprehension, and of the comprehensions
+    nested in it, bind -- once per binding."""
+
+    def __init__(self):
+        self.names: list[NamedId] = []
+
+    def _visit_list_comp(self, e: ListComp, ctx: None):
+        for target in e.targets:
+            self.names.extend(binding_names(target))
+        super()._visit_list_comp(e, ctx)
 
 
 class EnumerateElim:
